@@ -222,14 +222,25 @@ def run_scenario(scn):
                 model.fit(np.array(pf["X"], dtype=float), np.array(pf["Y"], dtype=int), np.array(pf["Xv"], dtype=float), np.array(pf["Yv"], dtype=int))
         except Exception as ex:
             return None, ("exception", "%s: %s" % (type(ex).__name__, str(ex)[:200]))
+    hist = list(H.derive_history(scn))
+    if scn.get("prepredict") and "prepredict" not in hist:
+        hist.insert(0, "prepredict")
+    Xtr = Z[I_train].copy()
+    Ytr = np.array(scn["Y"], dtype=int)
+    if "refit" in hist:
+        try:
+            if scn["kind"] == "unsup":
+                model.fit(Xtr.copy(), Ytr.copy(), np.array(I_train) if passI else None)
+            else:
+                model.fit(Xtr.copy(), Ytr.copy(), Z[list(scn["I_val"])].copy(), np.array(scn["Yv"], dtype=int), np.array(I_train) if passI else None, np.array(list(scn["I_val"])) if passI else None)
+        except Exception as ex:
+            return None, ("exception", "%s: %s" % (type(ex).__name__, str(ex)[:200]))
     CTX.update(on=True, model=model, snaps=[], log=[], nheaps=0)
     try:
         try:
-            Xtr = Z[I_train].copy()
-            Ytr = np.array(scn["Y"], dtype=int)
             if scn["kind"] == "unsup":
                 model.fit(Xtr, Ytr.copy(), np.array(I_train) if passI else None)
-                if scn.get("prepredict") and Q:
+                if "prepredict" in hist and Q:
                     # object history: the model has already predicted once before its labels are (re)written
                     model.predict(Z[Q].copy(), np.array(Q) if passI else None)
                 if scn.get("propagate"):
@@ -237,10 +248,13 @@ def run_scenario(scn):
             else:
                 Iv = list(scn["I_val"])
                 model.fit(Xtr, Ytr.copy(), Z[Iv].copy(), np.array(scn["Yv"], dtype=int), np.array(I_train) if passI else None, np.array(Iv) if passI else None)
-                if scn.get("prepredict") and Q:
+                if "prepredict" in hist and Q:
                     model.predict(Z[Q[::-1]].copy(), np.array(Q[::-1]) if passI else None)
         finally:
             CTX["on"] = False
+        orig = model
+        for step in hist:
+            model = H.apply_history_step(model, step)       # reload / deepcopy; the others were applied above
         sg = model.subgraph
         nodes = sg.nodes
         fin = {
@@ -278,7 +292,7 @@ def run_scenario(scn):
     if len(nodes) != n:
         return None, ("violation", "C13", "node_count", "subgraph has %d nodes for %d samples" % (len(nodes), n))
     # ---- distances by the harness
-    df = dist_fn(scn, model)
+    df = dist_fn(scn, orig)
     D = np.zeros((n, n))
     for i in range(n):
         for j in range(n):
